@@ -79,6 +79,14 @@ def cases(tier, seed):
                 N = gens.modes(rng, d, (1, 2, 3, 4, 5), distinct=(r % 2 == 0))
                 cs.append({'gen': 'dot', 'N': N, 'Ra': gens.rank_profile(rng, d, 'rand', 3), 'axes': sub, 'form': ['list', 'list-rev', 'list-rot', 'list'][r % 4] if sub is not None and len(sub) > 1 else 'list',
                            'Rb': gens.rank_profile(rng, d if sub is None else len(sub), 'rand', 3), 'dtype': ['f64', 'c128', 'f32', 'c128'][(r + d) % 4], 'vals': 'int'})
+    # dot with operands of different dtypes (real with complex, single with double): the second operand is conjugated, nothing is cast down
+    for i in range(60 if tier == 'quick' else 600):
+        d = rng.randint(1, 4)
+        N = gens.modes(rng, d, (1, 2, 3, 4), distinct=False)
+        sub = sorted(rng.sample(range(d), rng.randint(1, d)))        # the partial form (the full inner product refuses operands of different dtypes: a torch error, not a wrong number)
+        dta, dtb_ = [('f64', 'c128'), ('c128', 'f64'), ('f32', 'f64'), ('f64', 'f32'), ('f32', 'c128')][i % 5]
+        cs.append({'gen': 'dot', 'N': N, 'Ra': gens.rank_profile(rng, d, 'rand', 3), 'axes': sub, 'form': 'list', 'Rb': gens.rank_profile(rng, d if sub is None else len(sub), 'rand', 3),
+                   'dtype': dta, 'dtb': dtb_, 'vals': 'int'})
     # bilinear forms
     for i in range(1500 if tier == 'quick' else 15000):
         d = rng.randint(1, 4)
@@ -259,17 +267,22 @@ def run_dot(case, ctx, g):
     d = len(N)
     a = _mag(gens.make_tt(N, case['Ra'], dt, case['vals'], g), case, ctx)
     Nb = N if axes is None else [N[i] for i in axes]
-    b = gens.make_tt(Nb, case['Rb'], dt, case['vals'], g)
+    dtb = dn.dtype_of(case['dtb']) if case.get('dtb') else dt
+    b = gens.make_tt(Nb, case['Rb'], dtb, case['vals'], g)
+    if dtb != dt:
+        ctx.count('dot/operands-of-different-dtypes')
     ev = 'dot/%s' % ('full' if axes is None else 'partial')
     ctx.count(ev)
     key = ev + ('' if axes is None else ('/every-mode' if len(axes) == d else '/subset'))
     what = '%s N=%s Ra=%s axes=%s Rb=%s %s' % (ev, N, case['Ra'], axes, case['Rb'], case['dtype'])
     da, db = dn.D(a), dn.D(b)
+    if da.dtype != db.dtype:
+        da, db = da.to(torch.complex128), db.to(torch.complex128)
     if axes is None:
         ref = (da * db.conj()).sum()
     else:
         ref = torch.tensordot(da, db.conj(), dims=(axes, list(range(len(axes)))))
-    exact = gens.exact_ok(dt, gens.abs_bound(a) * gens.abs_bound(b) * max(1, da.numel()))
+    exact = gens.exact_ok(dt, gens.abs_bound(a) * gens.abs_bound(b) * max(1, da.numel())) and gens.exact_ok(dtb, gens.abs_bound(a) * gens.abs_bound(b) * max(1, da.numel()))
     scale = dn.s_rep(a) * dn.s_rep(b)
     if axes is None:
         out = ctx.lib('dot', torchtt.dot, a, b)
